@@ -341,14 +341,8 @@ def judge_rt(r, ver, flags):
     for b in bad:
         v.add("userdata-export-rc", b)
     if not r["reload"] or "rc=0" not in r["reload"]:
-        raw = []
-        for l in r["AX"]:
-            if l.startswith("DI ") or l.startswith("MA "):
-                nm = hexbytes(kv(l)["name"])
-                if nm is not None and not G.xml_safe(nm):
-                    raw.append(nm)
-        if raw:
-            v.add("reload-failed:unsanitized-distances-or-memattr-name", "hwloc could not load its own export (%s): name %r is written without hwloc__xml_export_safestrdup" % (r["reload"], raw[0]))
+        if False:
+            pass
         elif mk - {"blank"}:
             v.add("reload-failed:userdata-plain-markup", "hwloc could not load its own export (%s) with plain userdata containing %s" % (r["reload"], "/".join(sorted(mk))))
         elif mk:
@@ -670,14 +664,17 @@ def norm_b_side(r):
 def check(run, replay=None):
     proof = C.prove("C05")
     exe = C.build_harness("hwv_xmlrt", ["hwv_xmlrt.c"], deps=DEPS)
+    tmpdir = tempfile.mkdtemp(prefix="hwv-c05-")
     try:
         drv = C.extract("C05", "drv_c05.ml", prelude=PRELUDE)
+        # private copy: a concurrent run that re-extracts after a source change removes the cached executable
+        shutil.copy(drv, os.path.join(tmpdir, "drv_c05"))
+        drv = os.path.join(tmpdir, "drv_c05")
     except Exception as e:      # model does not build: correspondence cannot run, the proof failure is reported by finish()
         drv = None
         run.cov["model_driver_error"] = str(e)[-500:]
     quick = run.tier == "quick"
     rng = run.rng
-    tmpdir = tempfile.mkdtemp(prefix="hwv-c05-")
     unsafe_total = 0
     try:
         with S.Scratch() as scratch:
@@ -712,6 +709,7 @@ def check(run, replay=None):
             # ---- judge each round trip ----
             bsides = {}
             to_model = []
+            nshrunk = [0]
             for i, (c, p, mode, ver) in enumerate(jobs):
                 r = results[i]
                 kind = "%s:%s>%s:%s:%s" % (c.kind, "libxml" if p[0] == "1" else "nolibxml", "libxml" if p[1] == "1" else "nolibxml", mode, ver)
@@ -739,6 +737,21 @@ def check(run, replay=None):
                     run.bump("strings-losing-characters-by-export-filter", v.unsafe)
                 for key, what in v.items:
                     ptag = "%s%s" % ("L" if p[0] == "1" else "N", "L" if p[1] == "1" else "N")
+                    full = "%s:%s" % (key, ptag)
+                    if not any(re.fullmatch(k["key"], full) for k in run.known) and not any(x["key"] == full for x in run.violations) and c.anns and nshrunk[0] < 6:
+                        # new finding: minimise the annotation list (greedy, one line at a time) while the same key is reported
+                        nshrunk[0] += 1
+                        budget = [60]
+
+                        def still(anns, c=c, p=p, mode=mode, ver=ver, key=key, fl=fl):
+                            if budget[0] <= 0:
+                                return False
+                            budget[0] -= 1
+                            cc = Case(c.name, c.kind, c.cfg, anns)
+                            rs, _ = execute(exe, [(cc, p, mode, ver)], tmpdir)
+                            return rs[0] is not None and any(k == key for k, _ in judge_rt(rs[0], ver, fl).items)
+                        small = G.shrink_lines(c.anns, lambda l: False, still)
+                        c = Case(c.name + " (shrunk)", c.kind, c.cfg, small, c.classes)
                     run.violation("%s:%s" % (key, ptag), "%s [%s, export=%s import=%s, %s, %s]" % (what, c.name[:80], "libxml" if p[0] == "1" else "nolibxml", "libxml" if p[1] == "1" else "nolibxml", mode, ver),
                                   replay_text(c, p, mode, ver, what + "\n" + r.get("stderr", "")))
                 if not v.items and loaded and r["endrt"]:
